@@ -41,7 +41,9 @@ def _gen_one(job):
                 vcs.append((ob.name, ob.kind, ob.info, None))
             else:
                 vcs.append((ob.name, ob.kind, ob.info, smt.to_smt2(ob.hyps, g)))
-        reach = [smt.to_smt2(ob.hyps, ob.goal, want_axioms=False, use_theories=False) for ob in rep.reach[:6]]
+        from .core import _has_quantifier
+        reach = [smt.to_smt2([h for h in ob.hyps if not _has_quantifier(h)], ob.goal, want_axioms=False, use_theories=False)
+                 for ob in rep.reach[:6]]
     else:
         reach = []
     return {
